@@ -154,6 +154,14 @@ Theorem C02c_read_failed_release_shape : forall s t th s',
 Proof. exact (fun s t th s' R => e5_read_failed_release_shape s t th s' (e5_reachable_inv s R)). Qed.
 Print Assumptions C02c_read_failed_release_shape.
 
+(* graceful shutdown (Commander.Close: [AClose] = [crash], [ACloseOk] = [persist_ok] then [crash]; every theorem above
+   is proved over the state space that includes both): whenever it is enabled, from ANY state, it leaves an empty lock
+   table and an empty queue -- no lock and no queued intent survives the generation *)
+Theorem C02c_close_empties : forall s a s',
+  (a = AClose \/ a = ACloseOk) -> step s a = Some s' -> v_locks s' = [] /\ v_queue s' = [].
+Proof. exact e5_close_empties. Qed.
+Print Assumptions C02c_close_empties.
+
 (* ---- non-vacuity: concrete schedules ([e5_show]: table, queue, key and reference reservations, and per thread
    pc, response, grant flag). Request 0 funds account 1 with 100; request 1 (1 -> 2, 40) takes the locks;
    request 2 (1 -> 3, 100, idempotency key 7, reference 9) needs account 1 as well ------------------------------ *)
